@@ -200,7 +200,7 @@ func (e *Exec) execInstr(f *frame, in ssa.Instruction, h *Heap, g string) (*Heap
 		v := e.val(f, x.Value)
 		mt := x.Map.Type().Underlying().(*types.Map)
 		dc, vc := e.mapComps(mt)
-		e.guardedComp(f, dc, h, g, in)
+		e.guardObl(f, m.Guard, h, g, in, true)
 		if len(v.Allocs) > 0 && !e.isPrivateRef(m.T) {
 			e.escape(v)
 		}
@@ -218,7 +218,7 @@ func (e *Exec) execInstr(f *frame, in ssa.Instruction, h *Heap, g string) (*Heap
 		k := e.val(f, x.Index)
 		if mt, ok := x.X.Type().Underlying().(*types.Map); ok {
 			dc, vc := e.mapComps(mt)
-			e.guardedComp(f, dc, h, g, in)
+			e.guardObl(f, m.Guard, h, g, in, false)
 			dom := sel(sel(e.hget(h, dc), m.T), k.T)
 			vv := sel(sel(e.hget(h, vc), m.T), k.T)
 			val := ite(dom, vv, e.zero(mt.Elem()))
@@ -241,7 +241,7 @@ func (e *Exec) execInstr(f *frame, in ssa.Instruction, h *Heap, g string) (*Heap
 		}
 	case *ssa.Range:
 		v := e.val(f, x.X)
-		e.set(f, x, Val{T: v.T, Dyn: &v, DynT: x.X.Type()})
+		e.set(f, x, Val{T: v.T, Dyn: &v, DynT: x.X.Type(), Guard: v.Guard})
 	case *ssa.Next:
 		it := e.val(f, x.Iter)
 		tup := x.Type().(*types.Tuple)
@@ -257,7 +257,7 @@ func (e *Exec) execInstr(f *frame, in ssa.Instruction, h *Heap, g string) (*Heap
 		if it.DynT != nil {
 			if mt, ok := it.DynT.Underlying().(*types.Map); ok && !x.IsString {
 				dc, vc := e.mapComps(mt)
-				e.guardedComp(f, dc, h, g, in)
+				e.guardObl(f, it.Guard, h, g, in, false)
 				if kv.T != "" && vv.T != "" {
 					e.s.assert(implies(okv.T, and(sel(sel(e.hget(h, dc), it.T), kv.T), eq(vv.T, sel(sel(e.hget(h, vc), it.T), kv.T)))))
 				} else if kv.T != "" {
@@ -487,7 +487,7 @@ func (e *Exec) unop(f *frame, x *ssa.UnOp, h *Heap, g string) (*Heap, string) {
 	case token.MUL: // load
 		a := e.addrOf(v)
 		e.checkNonNil(f, a, &g, x)
-		e.guardedAccess(f, a, h, g, x, false)
+		gu := e.guardedAccess(f, a, h, g, x, false)
 		e.heapInv(a, h)
 		key := a.Ref + "|" + a.Comp + "|" + pathKey(a.Path)
 		term := e.load(h, a)
@@ -496,6 +496,9 @@ func (e *Exec) unop(f *frame, x *ssa.UnOp, h *Heap, g string) (*Heap, string) {
 			out = sh
 		}
 		out.Typ = x.Type()
+		if _, isMap := x.Type().Underlying().(*types.Map); isMap && gu != nil {
+			out.Guard = gu
+		}
 		e.notPrivate(out)
 		if _, isSl := x.Type().Underlying().(*types.Slice); isSl && e.pure == 0 && out.A == nil {
 			e.wf(out)
